@@ -15,6 +15,52 @@ def _cfg(wd, name, spec, invs, post=None):
     return path
 
 
+def run_fn_resilient(cpath, rpath, wd):
+    """`aqua-harness fn` with a journal: a death of the process (stack overflow, abort, OOM) on a case is recorded
+    as an observation of that case (died), and the run resumes after it."""
+    import subprocess
+    journal = os.path.join(wd, "journal_fn.txt")
+    parts, killed, skip = [], [], 0
+    total = sum(1 for _ in open(cpath))
+    for attempt in range(100):
+        part = os.path.join(wd, f"fnrecords_part{attempt}.ndjson")
+        cmd = f"ulimit -v 8000000; exec {HARNESS} fn --in {cpath} --out {part} --journal {journal} --skip {skip}"
+        try:
+            p = subprocess.run(["bash", "-c", cmd], stdout=subprocess.PIPE, stderr=subprocess.PIPE, text=True, timeout=3000)
+            rc = p.returncode
+        except subprocess.TimeoutExpired:
+            rc = -9
+        parts.append(part)
+        if rc == 0:
+            break
+        try:
+            jl = open(journal).read().split("\n")
+            n = int(jl[0])
+            case = json.loads(jl[1])
+        except Exception:
+            raise ToolError("harness fn died without a journal entry")
+        killed.append(n)
+        died = f"process died (exit {rc})"
+        with open(part, "a") as f:
+            f.write(json.dumps({"k": "fn", "n": n, "case": case,
+                                "obs": {"parse": "panic", "beautify": "panic", "pretty": "panic", "exec_died": died, "exec_code": -1,
+                                        "res": "panic", "lines": [], "eqprev": False}}) + "\n")
+        skip = n
+        if skip >= total:
+            break
+    with open(rpath, "w") as out:
+        for part in parts:
+            if os.path.exists(part):
+                for l in open(part, errors='replace'):
+                    if l.endswith("\n"):
+                        try:
+                            json.loads(l)
+                            out.write(l)
+                        except ValueError:
+                            pass
+    return {"cases": total}, killed
+
+
 def run_family(pid, family, tier, wd, module="FnSpec.tla"):
     env = {"FAMILY": family, "TIER": tier, "PROP": pid, "TRACE": os.path.join(wd, "none.ndjson")}
     open(env["TRACE"], "w").close()
@@ -30,7 +76,7 @@ def run_family(pid, family, tier, wd, module="FnSpec.tla"):
             f.write(c + "\n")
     # (2) every case is executed on the real code
     rpath = os.path.join(wd, f"records_{family}.ndjson")
-    st = run_harness(["fn", "--in", cpath, "--out", rpath])
+    st, killed = run_fn_resilient(cpath, rpath, wd)
     # (3) TLC validates the records against the specification
     env["TRACE"] = rpath
     v = run_tlc(module, _cfg(wd, f"check_{family}.cfg", "CheckSpec", ["CheckCase"], "AllExecuted"), wd, env=env, workers=1, timeout=3000, heap="8g")
@@ -39,7 +85,7 @@ def run_family(pid, family, tier, wd, module="FnSpec.tla"):
         raise ToolError(f"validation of family {family} did not complete (tool error, not a verdict)")
     return {"family": family, "enumerated_states": e["states"], "cases": len(cases), "executed": st.get("cases", 0),
             "validated_states": v["states"], "violations": v["violations"], "records": rpath,
-            "wall": round(e["wall"] + v["wall"], 1)}
+            "wall": round(e["wall"] + v["wall"], 1), "killed": killed}
 
 
 def record_of(rpath, n):
